@@ -171,6 +171,21 @@ def run_lik(case):
             got = fn(X.copy(), y[None, :].copy(), gamma=gamma.copy())
         else:
             got = fn(X.copy(), y[None, :].copy())
+    # the caller's matrices are the caller's: evaluating again on the SAME arrays (no copies) gives the same value, and the
+    # arrays still hold the simulations (a likelihood is evaluated many times on one set of simulations, e.g. at several
+    # observed vectors)
+    Xs, ys = X.copy(), y[None, :].copy()
+    with must_not_raise(P, 'evaluating the likelihood twice on the same arrays; ' + ctx):
+        if variant.startswith('misspec'):
+            r1 = fn(Xs, ys, gamma=gamma.copy())
+            r2 = fn(Xs, ys, gamma=gamma.copy())
+        else:
+            r1 = fn(Xs, ys)
+            r2 = fn(Xs, ys)
+    if not (np.array_equal(Xs, X) and np.array_equal(ys, y[None, :])):
+        raise Violation('C20:likelihood-overwrites-its-input', 'after the evaluation the simulated / observed summaries handed over are no longer what they were; %s' % ctx)
+    if not np.array_equal(np.asarray(r1), np.asarray(r2), equal_nan=True):
+        raise Violation('C20:likelihood-overwrites-its-input', 'two evaluations on the same arrays give %r and %r; %s' % (r1, r2, ctx))
     gv = float(np.reshape(got, -1)[0])
     if np.size(got) != 1:
         raise Violation('C20:likelihood-shape', 'likelihood returned %r; %s' % (got, ctx))
@@ -192,7 +207,10 @@ def strat_tr(tier):
     return st.fixed_dictionaries({
         'types': st.lists(st.sampled_from(BTYPES), min_size=1, max_size=4), 'seed': st.integers(0, 10 ** 6),
         'a': st.sampled_from([-3.0, 0.0, 0.5, 10.0]), 'w': st.sampled_from([0.1, 1.0, 7.0]),
-        'tilde': st.lists(st.floats(-12, 12, allow_nan=False), min_size=4, max_size=4),
+        # transformed values incl. far out (|theta~| up to 100: parameters 1e43 away from / 1e-43 close to a one-sided bound)
+        'tilde': st.lists(st.one_of(st.floats(-12, 12, allow_nan=False), st.floats(-12, 12, allow_nan=False), st.floats(-100, 100, allow_nan=False)), min_size=4, max_size=4),
+        # magnitude of the parameters used for back(forward(theta)): distances from a one-sided bound at 0 from 1e-20 to 1e20
+        'far_theta': st.booleans(),
     })
 
 
@@ -273,16 +291,16 @@ def run_tr(case):
         if np.isfinite(a) and np.isfinite(b):
             th.append(a + rs.uniform(0.01, 0.99) * (b - a))
         elif np.isfinite(b):
-            th.append(b - rs.exponential(2.0) - 1e-3)
+            th.append(b - (10.0 ** rs.uniform(-20, 20) if (case.get('far_theta') and b == 0) else rs.exponential(2.0) + 1e-3))
         elif np.isfinite(a):
-            th.append(a + rs.exponential(2.0) + 1e-3)
+            th.append(a + (10.0 ** rs.uniform(-20, 20) if (case.get('far_theta') and a == 0) else rs.exponential(2.0) + 1e-3))
         else:
             th.append(rs.randn() * 3)
     th = np.array(th)
     with must_not_raise(P, 'transforms; ' + ctx):
         f = BSL._para_logit_transform(th.copy(), bound)
         bk = BSL._para_logit_back_transform(f.copy(), bound)
-    if not np.allclose(bk, th, rtol=1e-10, atol=1e-12):
+    if not np.allclose(bk, th, rtol=1e-10, atol=1e-12 if not case.get('far_theta') else 0.0):
         raise Violation('C20:transform-not-inverted', 'back(forward(%r)) = %r; %s' % (th.tolist(), bk.tolist(), ctx))
     if not np.allclose(f, ref_forward(th, bound), rtol=1e-12, atol=1e-12):
         raise Violation('C20:forward-transform', 'forward(%r) = %r, expected %r; %s' % (th.tolist(), f.tolist(), ref_forward(th, bound).tolist(), ctx))
